@@ -272,17 +272,17 @@ class DictCodec(object):
                 raise NotDenotable('PyYAML does not round-trip this document')
         return data
 
-    def fault_of(self, d):
-        """recognise a dict-family fault document"""
+    def fault_of(self, d, known_fault=False):
+        """recognise a dict-family fault document; known_fault: the transport already said it is one"""
         if self.wire == 'msgpackrpc':
             if isinstance(d, list) and len(d) == 3 and d[0] == 3:
-                return self.fault_of_plain(d[2])
+                return self.fault_of_plain(d[2], known_fault)
             if isinstance(d, list) and len(d) == 4 and d[0] == 1 and d[2] is not None:
-                return self.fault_of_plain(d[2])
+                return self.fault_of_plain(d[2], known_fault)
             return None
-        return self.fault_of_plain(d)
+        return self.fault_of_plain(d, known_fault)
 
-    def fault_of_plain(self, d):
+    def fault_of_plain(self, d, known_fault=False):
         if isinstance(d, dict):
             dd = {self._text(k): v for k, v in d.items()}
             if len(dd) == 1 and list(dd)[0] == 'Fault' or (len(dd) == 1 and isinstance(list(dd.values())[0], dict) and 'faultcode' in {self._text(k) for k in list(dd.values())[0]}):
@@ -291,10 +291,10 @@ class DictCodec(object):
             if 'faultcode' in dd:
                 return FaultDoc(self._text(dd.get('faultcode')), self._text(dd.get('faultstring')), self._text(dd.get('faultactor')), dd.get('detail'))
         if isinstance(d, (list, tuple)) and len(d) >= 2 and isinstance(self._text(d[0]), str) and \
-                (self._text(d[0]).split('.')[0] in ('Client', 'Server')) and isinstance(self._text(d[1]), str) and len(d) <= 4:
+                (known_fault or self._text(d[0]).split('.')[0] in ('Client', 'Server')) and isinstance(self._text(d[1]), str) and len(d) <= 4:
             return FaultDoc(self._text(d[0]), self._text(d[1]), self._text(d[2]) if len(d) > 2 else None, d[3] if len(d) > 3 else None)
         if isinstance(d, (list, tuple)) and len(d) == 1 and isinstance(d[0], (list, tuple, dict)):
-            return self.fault_of_plain(d[0])
+            return self.fault_of_plain(d[0], known_fault)
         return None
 
     def parse_response(self, m, data, is_fault=None):
